@@ -23,14 +23,14 @@ TRUSTED_BASE = ["Coq 8.16.1 kernel (coqc), vm_compute only", "Extraction with Ex
                 "harness/h_codec.cpp + harness/meta_dump.hpp (metadata taken from the compiled generated classes)",
                 "ocaml/prelude.ml + ocaml/c01_driver.ml (metadata / msgspec / dump parsers), vlib/codecgen.py (generators)",
                 "real fast_atof/modp_dtoa results (harness RENDER) for the float texts of the known-finding class"]
-ASSUMPTIONS = ["value texts are canonical for their type (ints without sign/leading zeros below 2^31-47, floats W.F with at most two "
+ASSUMPTIONS = ["value texts are canonical for their type (ints in [-2^31, 2^31) without '+'/leading zeros, floats W.F with at most two "
                "decimals and |value| < 2^31, timestamps with milliseconds, ...): the theorem's vals_canonical; violated on purpose only "
                "in the known-finding classes",
                "values contain neither SOH nor NUL (data with SOH belongs to C06); messages below the 8 KB encode buffer (C03)"]
 RULE = ("messages generated from the dumped metadata: every message type, mandatory fields plus a random optional subset, values per "
         "field type (negative floats, '=' inside strings, boundary dates/times), groups with 0..3 elements nested to the schema's depth, "
         "empty groups, random insertion order; BodyLength exactly on and next to the digit-count boundaries 99/100/101, 999/1000/1001 (padded string field, messages with and without groups); each is built through the generic API, encoded, decoded by Message::factory, dumped, "
-        "re-encoded on both sides. Known-finding classes: negative ints, floats whose real rendering changes the value (0.995, "
+        "re-encoded on both sides. negative ints and INT_MIN/INT_MAX (fixed finding F01: must round-trip); known-finding classes: floats whose real rendering changes the value (0.995, "
         "|v| >= 2^31), elements without their first field. non-trivial = all three stages OK with >= 8 tokens; distinct = distinct lines")
 
 
@@ -42,15 +42,7 @@ _state = {}
 
 
 def build(tier):
-    """asan/ubsan harness per schema, plus a harness WITHOUT sanitizers for FIX42UTEST ("utest+plain"):
-    fast_atoi on a negative text is a left shift of a negative value, which UBSan turns into a trap;
-    the negative-int class is run unsanitized so that the value-level effect (-5 decodes as -25) is
-    observed on the real code (the UB itself is reported by C08/C03)."""
     built = G.build_codec(schemas(tier))
-    plain = G.build_codec(("utest",), variant="plain")
-    built["exes"]["utest+plain"] = plain["exes"]["utest"]
-    built["metas"]["utest+plain"] = plain["metas"]["utest"]
-    built["driver_args"].append(plain["driver_args"][0].replace("utest=", "utest+plain=", 1))
     _state["built"] = built
     return built
 
@@ -155,7 +147,8 @@ def gen_cases(rng, tier):
             spec = G.ser_msg(mt2, hdr, body, [])
             cs.append(Case(px + "RT s " + spec, "rt-flat"))
             cs.append(Case(px + "HYP " + spec, "hypotheses"))
-        # known-finding class: negative ints (fast_atoi ignores the sign)
+        # negative ints and the int extremes (F01, fixed in /repo a8219b1: fast_atoi handles the sign;
+        # before the fix "-5" decoded as -25 and, under UBSan, trapped on the negative shift)
         k = 0
         for _ in range(2000):
             mt, hdr, body, trl = gen.message()
@@ -164,12 +157,10 @@ def gen_cases(rng, tier):
             if not cand:
                 continue
             f = rng.choice(cand)
-            f.val = b"-" + (f.val if f.val != b"0" else b"5")
-            if schema != "utest":
-                break
-            cs.append(Case("@utest+plain RT s " + G.ser_msg(mt, hdr, body, trl), "negative-int"))
+            f.val = rng.choice((b"-5", b"-1", b"-2147483648", b"2147483647", b"-2147483647", b"-" + (f.val.lstrip(b"-0") or b"7")))
+            cs.append(Case(px + "RT s " + G.ser_msg(mt, hdr, body, trl), "negative-int"))
             k += 1
-            if k >= (60 if thorough else 20):
+            if k >= (80 if thorough else 30):
                 break
         # known-finding class: floats whose real rendering changes the value (all float classes share
         # fast_atof / modp_dtoa at precision 2: the real conversions are asked once per schema)
